@@ -100,6 +100,23 @@ def ids_duplicate(exprs):
     return None
 
 
+def walk(rec, exprs):
+    """(tokens, token digest, structure digest) of a list of trees, one
+    traversal, remembered for the few lists seen last (the same list object is
+    rendered, applied to and checked many times).  The memo is keyed by the
+    identity of the list and of its elements; nodes are immutable."""
+    cache = rec.__dict__.setdefault('_walk_cache', [])
+    key = tuple(map(id, exprs))
+    for ent in cache:
+        if ent[0] is exprs and ent[1] == key:
+            return ent[2], ent[3], ent[4]
+    toks, struct = reftok.tree_both(exprs)
+    ent = (exprs, key, toks, rec.dig(toks), reftok.digest(struct))
+    cache.insert(0, ent)
+    del cache[6:]
+    return ent[2], ent[3], ent[4]
+
+
 def install_probes():
     m = M
 
@@ -110,10 +127,8 @@ def install_probes():
             rec = CTX.rec
             if rec is None:
                 return orig(exprs, simp)
-            base = reftok.tree_tokens(exprs) if isinstance(exprs,
-                                                          list) else None
-            base_s = reftok.digest(reftok.tree_struct(exprs)) if isinstance(
-                exprs, list) else None
+            base, base_d, base_s = walk(rec, exprs) if isinstance(
+                exprs, list) else (None, None, None)
             if base is not None and len(base) > rec.max_tokens:
                 rec.max_tokens = len(base)
             origin = None
@@ -128,12 +143,11 @@ def install_probes():
             simp_fp = f'{len(rec.rounds)}/{tid}' if tid is not None else None
             r = orig(exprs, simp)
             if base is not None and isinstance(r, list):
-                rec.applies.append((rec.seq(), _actor(), rec.dig(base),
-                                    rec.dig(reftok.tree_tokens(r)),
+                _rt, r_d, r_s = walk(rec, r)
+                rec.applies.append((rec.seq(), _actor(), base_d, r_d,
                                     len(simp.substs) if hasattr(
                                         simp, 'substs') else -1, origin,
-                                    reftok.digest(reftok.tree_struct(r)),
-                                    base_s, simp_fp))
+                                    r_s, base_s, simp_fp))
             return r
 
         apply_simp.__wrapped__ = orig
@@ -181,10 +195,13 @@ def install_probes():
             S = CTX.S
             actor = _actor()
             try:
-                toks = reftok.tree_tokens(exprs)
+                if isinstance(exprs, list):
+                    toks, dig, _s = walk(rec, exprs)
+                else:
+                    toks = reftok.tree_tokens(exprs)
+                    dig = rec.dig(toks)
                 if len(toks) > rec.max_tokens:
                     rec.max_tokens = len(toks)
-                dig = rec.dig(toks)
                 sq = reftok.digest((''.join(''.join(toks).split()), ))
             except Exception:
                 dig = sq = None
@@ -231,12 +248,15 @@ def install_probes():
             if not is_out:
                 return orig(filename, exprs, *a, **k)
             try:
-                _t = reftok.tree_tokens(exprs)
+                if isinstance(exprs, list):
+                    _t, dig, sdig = walk(rec, exprs)
+                else:
+                    _t = reftok.tree_tokens(exprs)
+                    dig = rec.dig(_t)
+                    sdig = reftok.digest(reftok.tree_struct(exprs))
                 if len(_t) > rec.max_tokens:
                     rec.max_tokens = len(_t)
-                dig = rec.dig(_t)
                 sq_tree = ''.join(''.join(_t).split())
-                sdig = reftok.digest(reftok.tree_struct(exprs))
             except Exception:
                 dig = sdig = sq_tree = None
             w = {
